@@ -89,3 +89,9 @@ Definition plan_ok (sync : bool) (a : arg) (e : Z * list Z) : bool :=
       (fst c =? fst e) && zlist_eqb (snd c) (snd e)
   | _ => false
   end.
+
+(* the documented domain against what the real builder did: inside the strict domain the
+   builder must accept; whatever it accepts must be representable *)
+Require Import SC3.model.OscDomain.
+Definition domain_ok (a : arg) (code : Z) : bool :=
+  (negb (in_domain true a) || (code =? 0)) && (negb (code =? 0) || in_domain false a).
